@@ -1,5 +1,7 @@
 import StepModel.LazyRefs
 import StepModel.LazyDictLemmas
+import StepModel.LazyDictGenLemmas
+import StepModel.Props.C02
 /-!
 # C11 — inverse attributes resolved on load contain exactly the real referrers
 
@@ -443,5 +445,50 @@ def demoRank (n : Nat) : Nat := if n = 0 ∨ n = 3 then 0 else if n = 2 ∨ n = 
 
 example : Ranked demoDict demoRank ∧ AttrNamesUnique demoDict ∧ NamesUnique demoDict ∧ candEntities demoDict 0 = [0, 1, 5, 6, 2, 7, 7] :=
   ⟨⟨by decide, fun n => by unfold demoRank; split <;> (try split) <;> (try split) <;> simp [demoDict]⟩, by unfold AttrNamesUnique; decide, by unfold NamesUnique; decide, by decide⟩
+
+/-! ## the registry assumption, derived from the generated schema init code (C02's model) -/
+
+section Registry
+open StepModel.GenCxx StepModel.GenCxx.Spec
+
+/-- **the subtype lists the generated schema init code registers are the inverse of the supertype lists** — derived, not assumed.
+    For every well-formed schema (acyclic inheritance, declared supertypes, unique entity names) and every symbol-table iteration
+    order, in the registry the emitted `SchemaInit` builds (`dictOf`, C02's model of the `AddSupertype` / `AddSubtype` / `AddEntity`
+    call sequence, proved to mirror the schema: `C02_mirror`): under any injective numbering of entity names, an entity is in the
+    registered `_subtypes` list of `n` exactly when `n` is in its supertype list, for every resolver dictionary with the registry's
+    hierarchy.  This is the fact `subsOf` (the resolver model's computed subtype lists) stood for. -/
+theorem C11_registry_subtypes_inverse {s : Schema} {rank trank : String → Nat} (wf : WF s rank) (wft : WFT s trank)
+    (hn : (s.entities.map (·.name)).Nodup) (roots : List String) (hr : ∀ n, n ∈ roots ↔ n ∈ s.entities.map (·.name))
+    (num : String → Nat) (hinj : ∀ a b, num a = num b → a = b) (d : Dict)
+    (hd : SameHierarchy num (dictOf s roots).entities d) (n x : Nat) :
+    x ∈ regSubs num (dictOf s roots).entities n ↔ n ∈ supsOf d x :=
+  regSubs_inverse s rank wf _ (mirrored_of_mirror s _ hn (C02_mirror wf wft hn roots hr)) num hinj d hd n x
+
+/-- **`subtypesIterator` over the registered subtype lists**: `C11_candidate_entities` without its registry assumptions.  The entity
+    list `edL` that `lazyRefs::checkAnInvAttr` builds by walking the `_subtypes` lists *as the generated init code registered them*
+    contains a keyword's entity exactly when the inverted entity is in the supertype closure of that keyword.  Acyclicity and unique
+    names are no longer hypotheses on the dictionary: they follow from the schema's well-formedness through `C02_mirror`. -/
+theorem C11_candidate_entities_generated {s : Schema} {rank trank : String → Nat} (wf : WF s rank) (wft : WFT s trank)
+    (hn : (s.entities.map (·.name)).Nodup) (roots : List String) (hr : ∀ n, n ∈ roots ↔ n ∈ s.entities.map (·.name))
+    (num : String → Nat) (hinj : ∀ a b, num a = num b → a = b) (d : Dict)
+    (hd : SameHierarchy num (dictOf s roots).entities d) (over k : Nat) :
+    k ∈ candEntitiesBy (regSubs num (dictOf s roots).entities) (d.length + 1) over ↔ over ∈ typesOf d k := by
+  have m := mirrored_of_mirror s _ hn (C02_mirror wf wft hn roots hr)
+  have hrk := ranked_of_mirror s rank wf _ m num hinj d hd
+  rw [C11_types_closure d _ hrk]
+  exact candBy_iff d _ hrk _ (fun n x => regSubs_inverse s rank wf _ m num hinj d hd n x) over k
+
+/-- the model's computed subtype lists and the registered ones have the same members, so `candEntities` (used by the resolver model
+    and the driver) and the walk over the registered lists contain the same entities -/
+theorem C11_candidate_entities_agree {s : Schema} {rank trank : String → Nat} (wf : WF s rank) (wft : WFT s trank)
+    (hn : (s.entities.map (·.name)).Nodup) (roots : List String) (hr : ∀ n, n ∈ roots ↔ n ∈ s.entities.map (·.name))
+    (num : String → Nat) (hinj : ∀ a b, num a = num b → a = b) (d : Dict)
+    (hd : SameHierarchy num (dictOf s roots).entities d) (hu : NamesUnique d) (over k : Nat) :
+    k ∈ candEntitiesBy (regSubs num (dictOf s roots).entities) (d.length + 1) over ↔ k ∈ candEntities d over := by
+  have m := mirrored_of_mirror s _ hn (C02_mirror wf wft hn roots hr)
+  have hrk := ranked_of_mirror s rank wf _ m num hinj d hd
+  rw [C11_candidate_entities_generated wf wft hn roots hr num hinj d hd, C11_candidate_entities d _ hrk hu]
+
+end Registry
 
 end StepModel.LazyRefs
